@@ -284,6 +284,26 @@ class RecursiveParser {
     // v0.11.0: import処理（パース時にモジュールをロードして定義を取り込む）
     void processImport(const std::string &module_path,
                        const std::vector<std::string> &import_items = {});
+
+    // Marks a module file as "being imported" for the lifetime of the object
+    // (canonical path). Every import is parsed by a fresh parser instance that
+    // processes the module's own imports in turn; a module that is already
+    // being imported further up - a module importing itself, a cycle
+    // a -> b -> a - is not entered again. Used by processImport() and by the
+    // interpreter's run-time import, which parses the module file as well.
+    class ImportInProgress {
+      public:
+        explicit ImportInProgress(const std::string &file_path);
+        ~ImportInProgress();
+        ImportInProgress(const ImportInProgress &) = delete;
+        ImportInProgress &operator=(const ImportInProgress &) = delete;
+        // false: the module was already in progress (do not enter it)
+        bool entered() const { return entered_; }
+
+      private:
+        std::string key_;
+        bool entered_;
+    };
     std::string resolveModulePath(const std::string &module_path);
     std::string
     getSourceDirectory() const; // ソースファイルのディレクトリを取得
